@@ -250,7 +250,6 @@ def check(chk: Check) -> None:
                         if src != "seekable" and (physical != 1 or j == 4):
                             continue
                         ljobs.append(dict(physical=physical, complete=j, cut="torn", integ=integ, parser=parser, source=src))
-    ljobs += [dict(jb, tunable_scale=tunables.SCALE) for jb in ljobs if jb["complete"] in (2, 4)]
     for res in pmap(c10.run, ljobs):
         if res is None:
             continue
